@@ -33,7 +33,7 @@ RULES_REQUIRED = [
     'padAfterXml_pad_zero', 'writer_pad_zero', 'residues_cover', 'padAfterSupport_pad_zero', 'padAfterPvp_pad_zero',
     'mutation_nextoff_falsifies_padAfterXml', 'mutation_pvpoff_falsifies_padAfterSupport', 'mutation_sigoff_falsifies_padAfterPvp',
     'mutation_filelen_falsifies_signalAtEof', 'writer_satisfies_xmlEarly', 'mutation_xmloff_falsifies_xmlEarly',
-    'packFrom_packed', 'writer_satisfies_allSignalFit', 'writer_channels_disjoint', 'mutation_numvectors_falsifies_signalFits',
+    'packFrom_packed', 'packFrom_bounds', 'packFrom_disjoint', 'writer_packed_arrays_fit', 'writer_pvp_fields_tile', 'writer_satisfies_allSignalFit', 'writer_channels_disjoint', 'mutation_numvectors_falsifies_signalFits',
     'mutation_blocksize_falsifies_signalFits',
     'writer_satisfies_countMatches', 'countMatches_iff', 'mutation_count_falsifies_countMatches', 'writer_satisfies_fourCorners',
     'mutation_corner_falsifies_fourCorners', 'optionalFx_iff', 'mutation_one_missing_falsifies_optionalFx',
@@ -92,7 +92,16 @@ def prove(chk, gen_info):
     ok, failed, errors, log = lake_build(['SarpyModel.Bridge.CheckerRules'])
     if not ok:
         src = open(BRIDGE_FILE).read().split('\n')
-        starts = [(i + 1, m.group(1)) for i, ln in enumerate(src) for m in [re.match(r'theorem\s+(\w+)', ln)] if m]
+        starts, doc = [], None        # a declaration starts with its doc comment: Lean reports `:= rfl` failures at that line
+        for i, ln in enumerate(src):
+            if ln.startswith('/--') and doc is None:
+                doc = i + 1
+            m = re.match(r'theorem\s+(\w+)', ln)
+            if m:
+                starts.append((doc or i + 1, m.group(1)))
+                doc = None
+            elif not ln.strip():
+                doc = None
         hit = set()
         for f, l, c, m in errors:
             if f.endswith('Bridge/CheckerRules.lean'):
@@ -345,6 +354,10 @@ def header_observations(buf):
     keys = list(kv)
     lobs.append(dict(kind='required', line=f'chkspec required {tok.many(REQUIRED_KEYS)} {tok.many(keys)}', oracle=all(k in kv for k in REQUIRED_KEYS),
                      check='check_header_keys', text='Required header field', all_items=True))
+    a, b = 'SUPPORT_BLOCK_SIZE' in kv, hs
+    if a or b:
+        lobs.append(dict(kind='together', line='chkspec rule optional_toa - ' + ('1' if a else '0') + ('1' if b else '0'), oracle=(a == b),
+                         check='check_header_keys', text='SUPPORT_BLOCK fields go together', all_items=True))
     return obs, lobs, dict(kv=kv, ver=ver, xo=xo, xs=xs, gs=gs)
 
 
@@ -489,6 +502,8 @@ class RuleBook:
 # ======================================================================================================================
 # the real checker on selected checks
 # ======================================================================================================================
+HEADER_RULES = {'xml_early', 'pad_after_xml', 'pad_after_support', 'pad_after_pvp', 'signal_at_eof', 'signal_fits', 'version_match', 'required',
+                'together', 'present', 'severities', 'guards'}
 HEADER_CHECKS = ['check_pad_header_xml', 'check_pad_after_xml', 'check_pad_after_support', 'check_pad_after_pvp', 'check_signal_at_end_of_file',
                  'check_channel_signal_data', 'check_header_keys', 'check_classification_and_release_info', 'check_file_type_header']
 XML_CHECKS = ['check_antenna', 'check_identifier_uniqueness', 'check_channel_identifier_uniqueness', 'check_channel_dwell_exist',
@@ -538,6 +553,9 @@ def boundary_patches(buf):
         out.append(('signal_at_eof', {'SIGNAL_BLOCK_SIZE': gs + d}))
     for d in (-2, -1):
         out.append(('signal_fits', {'SIGNAL_BLOCK_SIZE': gs + d}))
+    if hs:
+        out.append(('support_together', {'-': 'SUPPORT_BLOCK_SIZE'}))
+    out.append(('required', {'-': 'RELEASE_INFO'}))
     return out
 
 
@@ -555,7 +573,12 @@ def template_bytes(name):
     return _TEMPLATE_CACHE[name]
 
 
-EDITS = ['count', 'dup_id', 'dangling', 'polygon_size', 'polygon_index', 'icp', 'pvp_optional', 'domain', 'toa_ext', 'box', 'poly_exp', 'poly_dup',
+RULE_EDITS = {'num_acfs': ['count', 'node_count'], 'num_apcs': ['count', 'node_count'], 'num_antpats': ['count', 'node_count'],
+              'polygon_size': ['polygon_size', 'icp'], 'corner_points': ['icp'], 'optional_fx': ['pvp_optional', 'domain'],
+              'optional_toa': ['pvp_optional'], 'toa_ext_together': ['toa_ext', 'pvp_optional'], 'image_area_box': ['box'],
+              'channel_area_box': ['box'], 'extended_area_box': ['box'], 'unique': ['dup_id', 'chan_dup_ref'], 'refs': ['dangling', 'apc_acf'],
+              'refs-seq': ['dangling'], 'poly-seq': ['poly_exp', 'poly_dup', 'poly_order'], 'indices': ['polygon_index', 'icp']}
+EDITS = ['count', 'count', 'node_count', 'box', 'box', 'dup_id', 'dangling', 'polygon_size', 'polygon_index', 'icp', 'pvp_optional', 'domain', 'toa_ext', 'box', 'poly_exp', 'poly_dup',
          'poly_order', 'chan_dup_ref', 'apc_acf']
 
 
@@ -570,6 +593,24 @@ def apply_edit(root, q, op, r):
             return None
         el.text = str(max(0, int(el.text) + r.choice([-1, 1, 1, 2])))
         return f'{el.tag.split("}")[-1]}={el.text}'
+    if op == 'node_count':
+        kind, cnt = r.choice([('AntCoordFrame', 'NumACFs'), ('AntPhaseCenter', 'NumAPCs'), ('AntPattern', 'NumAntPats')])
+        nodes = fa('Antenna/' + kind)
+        el = f('Antenna/' + cnt)
+        if not nodes or el is None:
+            return None
+        if r.random() < 0.6 or len(nodes) < 2:
+            new = copy.deepcopy(nodes[-1])
+            new.find(q('Identifier')).text += '_copy'
+            nodes[-1].addnext(new)
+            delta = 1
+        else:
+            nodes[-1].getparent().remove(nodes[-1])
+            delta = -1
+        fixed = r.random() < 0.5
+        if fixed:
+            el.text = str(int(el.text) + delta)
+        return f'{kind} {"+" if delta > 0 else "-"}1 node, {cnt} {"updated" if fixed else "left"}'
     if op == 'dup_id':
         paths = r.choice(ID_SETS)
         # renaming a channel makes the constructor of the checker fail (it looks every Data channel up in Channel/Parameters):
@@ -662,7 +703,7 @@ def apply_edit(root, q, op, r):
     if op == 'box':
         areas = [x for x in (f('SceneCoordinates/ImageArea'), f('SceneCoordinates/ExtendedArea')) if x is not None] + \
                 [c.find(q('ImageArea')) for c in fa('Channel/Parameters') if c.find(q('ImageArea')) is not None]
-        a = r.choice(areas)
+        a = areas[r.randrange(len(areas))] if r.random() < 0.5 else areas[min(1, len(areas) - 1)]
         p1, p2 = a.find(q('X1Y1')), a.find(q('X2Y2'))
         ax = r.choice(['X', 'Y'])
         e1, e2 = p1.find(q(ax)), p2.find(q(ax))
